@@ -165,6 +165,24 @@ def check_while(ctx, f, nd, i):
         if atom[0] == 'cmp' and atom[1] == '==' and not pol and atom[2][0] == 'v' and atom[3] == ('c', '0'):
             variant = ('str0', atom[2][1], None)
     if variant is None:
+        # while v != e : sound only when every step is exactly +1 (a larger step can jump over e)
+        for atom, pol in atoms:
+            if atom[0] == 'cmp' and atom[1] == '==' and not pol:
+                for a_, b_ in ((atom[2], atom[3]), (atom[3], atom[2])):
+                    if a_[0] == 'v' and isinstance(a_[2], tuple) and is_call(b_, 'builtins.len'):
+                        big = []
+                        for p, k in back:
+                            events, env = walk_path(f, p)
+                            for e in events:
+                                if e.kind == 'aug' and e.name == a_[1] and e.term[0] == 'bin' and e.term[1] == '+' and e.extra != ('c', 1):
+                                    big.append(show(e.extra)[:40])
+                        if big:
+                            run.refute('R-PROG', f, role, nd.lineno,
+                                       "the loop runs while `%s != %s` but advances `%s` by %s on some path: the variable can jump over "
+                                       "the bound and the loop never ends" % (a_[1], show(b_)[:30], a_[1], big[0]),
+                                       inputs='an error in the last window of the strand')
+                            return
+    if variant is None:
         body = {n.id for n in f.nodes if nd.id in n.loops}
         read = {x[1] for x in walk_term(test) if x[0] == 'v'}
         written = {d.name for n in f.nodes if n.id in body for d in n.defs}
@@ -704,7 +722,38 @@ def r_cand(ctx):
 
 
 # ----------------------------------------------------------------------------------------------
+def r_fallback(ctx):
+    """the unrepaired strand is handed back only when there are no candidates or too many (C08: a detected error is
+    repaired, also when a check is supplied; C09: what comes back was checked)"""
+    run = ctx.run
+    run.rule('R-RET', "repair_dna: a return that hands back the input strand instead of the collected candidates is "
+                      "conditioned on the candidate count (0 or above heap_size)")
+    f = ctx.p.func('dsw.spiderweb.repair_dna')
+    n = 0
+    for nd in f.stmts(ast.Return):
+        n += 1
+        t = f.term(nd.stmt.value, nd)
+        role = 'return#%d' % n
+        # a return that hands back a literal / conditional list (not the collected candidates) is the fallback: it must sit
+        # under the "no candidates or too many" condition, otherwise detected errors are discarded without repair
+        if t[0] == 'tuple' and len(t) == 3 and t[1][0] in ('list', 'ifexp'):
+            under = False
+            for atom, pol in ctx.conds(f, nd):
+                if any(x == ('v', 'heap_size', 'P') for x in walk_term(atom)):
+                    under = True
+                if atom[0] == 'cmp' and atom[1] == '==' and atom[3] == ('c', 0):
+                    under = True
+                if atom[0] == 'bool' and any(any(x == ('v', 'heap_size', 'P') for x in walk_term(y)) for y in atom[2:]):
+                    under = True
+            run.check(under, 'R-RET', f, role + ':fallback-only-without-candidates', nd.lineno,
+                      'the strand is handed back unrepaired only when there are no candidates or too many',
+                      'repair_dna returns %s on a path that is not conditioned on the candidate count (0 or above heap_size): '
+                      'detected errors are dropped without repair' % show(t[1])[:50],
+                      inputs='a corrupted strand whose check happens to match, or any strand reaching that path')
+
+
 def r_ret(ctx):
+    r_fallback(ctx)
     run = ctx.run
     run.rule('R-RET', "every return of repair_dna is (L, 4-tuple) with L in { [], [x], sorted(set) }; every x and every "
                       "argument of set.add is, when vt_check is not None, under a true comparison "
@@ -747,7 +796,8 @@ def r_ret(ctx):
                     return h
         return None
     n = 0
-    for nd in f.stmts(ast.Return):
+    all_rets = list(f.stmts(ast.Return))
+    for nd in all_rets:
         n += 1
         t = f.term(nd.stmt.value, nd)
         role = 'return#%d' % n
@@ -1033,7 +1083,8 @@ def r_tile_clamp(ctx):
             base = arg[1]
             composite = base[0] == 'sub' and base[2][0] == 'slice'
             root = base[1] if composite else base
-            clamped = composite or any(is_call(x, 'builtins.max') for x in walk_term(arg[2]))
+            clamped = composite or any(is_call(x, 'builtins.max') for x in walk_term(arg[2])) or \
+                any(x[0] == 'ifexp' and (x[2] == ('c', 0) or x[3] == ('c', 0)) for x in walk_term(arg[2][1]))
             role = 'chunk' if root == strand else ('marker' if root[0] == 'v' else None)
             if role:
                 forms[role] = (clamped, nd.lineno, show(arg)[:60])
